@@ -717,8 +717,8 @@ where
         values: &[ArrayRef],
         opt_filter: Option<&BooleanArray>,
     ) -> Result<Vec<ArrayRef>> {
-        assert_eq!(values.len(), 1, "one argument to merge_batch");
-
+        // As in `update_batch`, `values` holds every argument expression (the
+        // aggregated column first, then the percentile); only the column is used.
         let input_array = values[0].as_primitive::<T>();
 
         // Directly convert the input array to states, each row will be
